@@ -1,6 +1,7 @@
 import LeptosModel.Model.Reactive
 import LeptosModel.Model.ReactiveOld
 import LeptosModel.Proofs.ReactiveJust
+import LeptosModel.Proofs.ReactiveOnce
 /-!
 # C09 — computations run only when something they read has changed
 
@@ -115,6 +116,36 @@ example :
     let s := run c09Prog [.read 2, .set 0 1]
     let s2 := (step c09Prog (step c09Prog s (.read 2)).1 (.read 1)).1
     countRan 1 (s2.log.drop s.log.length) = 1 ∧ countRan 2 (s2.log.drop s.log.length) = 1 := by
+  decide +kernel
+
+/-! ## an effect never runs twice for one change (log level)
+
+`C09_run_justified_full` says it with the ghost versions (`justified`: a tracked input of the previous
+run has a new version).  The theorem below says it with the LOG alone, so it is not a corollary of the
+former: it additionally needs that every new version of a data node is accompanied by its `set` /
+`changed` event and that every recorded read is in the log after the run that made it
+(`Proofs/ReactiveOnce.lean`, relation `ChgRel` carried through the whole machinery). -/
+
+/-- **at most one run per change**: in the log of every history of every WF program (memos, effects,
+untracked reads, writer effects, pause/resume/dispose), whenever `ran w` occurs and `w` has run before,
+the part of the log before it has the shape `l1 ++ ran w :: m1 ++ rdv w x v :: m2` where `ran w` is the
+PREVIOUS run of `w` (no `ran w` in `m1`, `m2`), `rdv w x v` is a tracked read made by that run, and `x`
+changed after that read and before the new run (`set x` or `changed x` in `m2`).  Holds for memos and
+effects alike. -/
+theorem C09_effect_at_most_once_per_change :
+    ∀ (p : Prog) (ops : List Op) (w : Nat) (a b : List Ev), WF p = true →
+      (run p ops).log = a ++ Ev.ran w :: b → Ev.ran w ∈ a →
+      ∃ l1 m1 m2 x v, a = l1 ++ Ev.ran w :: (m1 ++ Ev.rdv w x v :: m2) ∧
+        Ev.ran w ∉ m1 ∧ Ev.ran w ∉ m2 ∧ (Ev.set x ∈ m2 ∨ Ev.changed x ∈ m2) :=
+  fun _ ops _ _ _ hwf hl hm => run_once hwf ops hl hm
+
+/-- non-vacuity: the log of the repaired F-C09-1 program under `idle, s := 1, idle`; the effect (node 3)
+runs twice, the second run comes after `rdv 3 2 0 … changed 2` -/
+example :
+    (run c09Prog c09Ops).log =
+      [.ran 3, .ran 2, .rdv 2 0 0, .ran 1, .rdv 1 0 0, .changed 1, .rdv 2 1 0, .changed 2,
+        .rdv 3 2 0, .rdv 3 1 0] ++ .set 0 :: .woke 3 :: .ran 2 :: .rdv 2 0 1 :: .ran 1 :: .rdv 1 0 1 ::
+        .changed 1 :: .woke 3 :: .rdv 2 1 1 :: .changed 2 :: .ran 3 :: [.rdv 3 2 2, .rdv 3 1 1] := by
   decide +kernel
 
 end Leptos.Reactive
